@@ -47,6 +47,22 @@ LEMMAS_FRAMING = [j("specs.sess:" + n) for n in ("lemma_tlv_prefix", "lemma_chun
 FRAME_READERS = [j("asn1:" + n) for n in ("ASN1Reader.read_sequence", "_read_asn1_sequence", "_validate_tag", "_read_asn1_header",
                                            "_unpack_asn1_octet_number", "ASN1Reader.get_remaining_data")]
 
+# decode tree below the LDAPMessage envelope: exception containment + progress of every `while reader:` loop (contracts/decode.py)
+DECODE_TREE = [j("_authentication:%s.unpack" % n) for n in ("SimpleCredential", "SaslCredential", "AuthenticationCredential")] + \
+              [j("_controls:%s.unpack" % n) for n in ("LDAPControl", "PagedResultControl", "ShowDeactivatedLinkControl", "ShowDeletedControl")] + \
+              [j("_controls:unpack_ldap_control")] + \
+              [j("_filter:%s.unpack" % n) for n in ("FilterAnd", "FilterOr", "FilterNot", "FilterEquality", "FilterSubstrings", "FilterGreaterOrEqual",
+                                                    "FilterLessOrEqual", "FilterPresent", "FilterApproxMatch", "FilterExtensibleMatch", "LDAPFilter")] + \
+              [j("_filter:_unpack_filter_attribute_value_assertion")] + \
+              [j("_messages:_unpack_%s" % n) for n in ("bind_request", "bind_response", "extended_request", "extended_response", "search_request",
+                                                       "search_result_done", "search_result_entry", "search_result_reference", "ldap_result", "partial_attribute")] + \
+              [j("_messages:_unpack_ldap_message_content", None, "_messages:_unpack_ldap_message_content[containment]")]
+# readers the decode tree calls: their `raises` clauses and the progress clause are what containment rests on
+READER_METHODS = [j("asn1:" + n) for n in ("ASN1Reader.peek_header", "ASN1Reader.skip_value", "ASN1Reader.read_octet_string", "ASN1Reader.read_boolean",
+                                           "ASN1Reader.read_integer", "ASN1Reader.read_sequence", "ASN1Reader.read_set", "_read_asn1_header", "_validate_tag",
+                                           "_read_asn1_octet_string", "_read_asn1_sequence", "_read_asn1_set", "_read_asn1_boolean", "_read_asn1_integer",
+                                           "_read_asn1_enumerated", "_unpack_asn1_octet_number")]
+
 REGISTRY = {
     "C07": {"jobs": LEMMAS_BER + ASN1_FUNCS, "native": "native_c07.py",
             "assumptions": ["len(x) < 2^63 for every octet string (CPython sys.maxsize); INTEGER contents of at most 2^40 octets",
@@ -65,10 +81,14 @@ REGISTRY = {
                             "the 'same state as a single delivery' clause composes the proved facts on paper: receive returns msgs(R ++ data) and keeps residue(R ++ data); "
                             "lemma_chunk gives msgs(A ++ B) == msgs(A) ++ msgs(residue(A) ++ B) and residue(A ++ B) == residue(residue(A) ++ B); messages are processed in list order by the "
                             "deterministic _process_incoming_message contracts, so any partition yields the same fold"]},
-    "C05": {"jobs": RECEIVE + INCOMING, "native": "native_receive.py", "level": "other",
-            "explanation": "Session-level containment proved; decoder exception classes below the envelope are a trusted contract exercised by the bounded sweep.",
-            "assumptions": ["exception classes of the content decoders (_unpack_ldap_message_content and below) are assumed to be within {ValueError, NotImplementedError, NotEnougData, RecursionError}: "
-                            "trusted contract, exercised by the bounded corruption sweep; TypeError/AttributeError excluded under 'arguments conform to their annotations'"]},
+    "C05": {"jobs": RECEIVE + INCOMING + DECODE_TREE + READER_METHODS, "native": "native_receive.py",
+            "assumptions": ["default PackingOptions: no user-registered custom credential / filter / control types (a registered type's unpack is user code)",
+                            "RecursionError is the only resource exception (raised by the interpreter at its recursion limit inside the recursive filter decoder, caught by receive: proved as one of the "
+                            "exceptional outcomes of the content decoder); MemoryError excluded; TypeError excluded under 'arguments conform to their annotations'",
+                            "the functional postcondition of _unpack_ldap_message_content (result is a function of the octets) stays assumed; its exception classes are discharged from the body under "
+                            "the contract key _messages:_unpack_ldap_message_content[containment]",
+                            "well-formedness of the attached notification is proved as 'equals enc(UnbindRequest(0)) / enc(notice of disconnection, protocolError)'; that enc (LDAPMessage.pack, trusted at L3) "
+                            "produces valid BER for these two messages is checked by the independent decoder in the bounded sweep"]},
     "C06": {"jobs": RECEIVE + FRAME_READERS + [LEMMAS_FRAMING[2], LEMMAS_FRAMING[0]], "native": "native_receive.py"},
     "C13": {"jobs": [], "native": "native_filter_text.py", "level": "other",
             "explanation": "Contract from_string(str(f)) == f on the real functions, evaluated: the per-octet escape map over all 256 octets is exhaustive (complete for the per-octet map); "
